@@ -687,9 +687,9 @@ ht2sp(uint8_t *buf, size_t buf_size,
 	if (NULL != buf_size_ret) {
 		(*buf_size_ret) = buf_size;
 	}
-	c_pos = buf;
+	c_pos = ret_buf;
 	for (;;) {
-		c_pos = mem_chr_ptr(c_pos, buf, buf_size, '\t'); /* TAB */
+		c_pos = mem_chr_ptr(c_pos, ret_buf, buf_size, '\t'); /* TAB */
 		if (NULL == c_pos)
 			break;
 		(*c_pos) = ' '; /* SPace */
